@@ -127,6 +127,12 @@ def run_case(rs, ctx):
         elif mode == 1:
             # tie-rich splits: random_state matters (an explicit None is scikit-learn's own default and a legal value)
             cfg["np"] = {"kind": "tree", "params": gen.pick(rs, [{"max_depth": 1}, {"max_depth": 1, "random_state": None}])}
+    if p == "lsh" and rs.integers(2) == 0:
+        # wide signatures (more sign bits than a double's mantissa) hashed by worker *processes* during training and by the calling
+        # process for short queries: whatever identifies a bucket has to mean the same in every process, whatever its hash seed
+        cfg["np"]["n_dimensions"] = int(gen.pick(rs, [53, 60]))
+        cfg["n_jobs"], cfg["backend"] = 2, None
+        ctx.count("wide_lsh_signatures_across_worker_processes")
     nf = 3 if l == "lints" else 2
     sh = gen.Shadow(cfg, nf)
     ops = gen.gen_ops(rs, cfg, sh, 1, ["fit"], train_rows=(6, 16)) + gen.gen_ops(
